@@ -8,6 +8,7 @@ import (
 	"fmt"
 	"hash"
 	"math/big"
+	"sync"
 )
 
 // ---- HMAC (RFC 2104), written over the bare digests -------------------------
@@ -363,14 +364,16 @@ type Group struct {
 }
 
 var groups map[uint16]*Group
+var groupsOnce sync.Once
 
+// GroupByID is called from free-running goroutines too (C18 pass 2): the table is built exactly once.
 func GroupByID(id uint16) *Group {
-	if groups == nil {
+	groupsOnce.Do(func() {
 		groups = map[uint16]*Group{
 			2:  {2, ModpPrime(1024, 129093), 128},
 			14: {14, ModpPrime(2048, 124476), 256},
 		}
-	}
+	})
 	return groups[id]
 }
 
